@@ -77,7 +77,8 @@ WITNESS = {
     "c10_template/Template::from_str_with_tab_width#safety": ["template_total", "template_order"],
     "c10_template/Template::from_str_with_tab_width#C10-literal": ["template_order"],
     "c10_template/Template::from_str_with_tab_width": ["template_order", "template_total"],
-    "c12_padding/PaddedStringDisplay::fmt": ["pad_field"],
+    "c12_padding/PaddedStringDisplay::fmt": ["pad_field ascii"],
+    "c12_padding/PaddedStringDisplay::fmt__F_": ["pad_field"],
     "c14_style/ProgressStyle::tick_strings": ["style_build tick_strings"],
     "c14_style/ProgressStyle::progress_chars": ["style_build progress_chars"],
     "c14_style/ProgressStyle::tick_chars": ["style_build tick_chars"],
